@@ -11,7 +11,7 @@ import re
 import z3
 
 from .values import (Cell, Ref, Adt, VecV, MapV, IterV, EnumC, Sym, Opaque, UNINIT, UNIT,
-                     Panic, Unsupported, PathInfeasible, clone_val, some, none)
+                     Panic, Unsupported, PathInfeasible, OutOfBound, clone_val, some, none)
 from .program import strip_generics
 from .symstr import SStr, chars_of
 from . import models
@@ -667,11 +667,61 @@ class Interp:
             return z3.Xor(x, y)
         raise Unsupported('bool binop ' + op)
 
+    def key_representatives(self, name):
+        """boundary-value concretisation: the codes a key symbol may take when the code under test does arithmetic on it
+        (the unchanged tree never does). Lowest and highest valid code, the valid codes next to 2^8 and 2^9, the codes 256
+        and 512 away from every constant the symbol has been compared with, and one ordinary code."""
+        dom = sorted(self.keys.domain)
+        ds = set(dom)
+        reps = [dom[0], dom[-1]]
+        for b in (256, 512):
+            lo = [v for v in dom if v < b]
+            hi = [v for v in dom if v >= b]
+            if lo:
+                reps.append(lo[-1])
+            if hi:
+                reps.append(hi[0])
+        r = self.keys.canon(name)
+        consts = sorted(x for x in self.keys.ne.get(r, ()) if isinstance(x, int))
+        seen_c = 0
+        for c in consts:
+            added = False
+            for dlt in (256, -256, 512, -512):
+                if c + dlt in ds:
+                    reps.append(c + dlt)
+                    added = True
+            seen_c += 1 if added else 0
+            if seen_c >= 8:
+                break
+        for v in dom:
+            if v >= 59 and v not in consts:
+                reps.append(v)
+                break
+        out = []
+        for v in reps:
+            if v not in out:
+                out.append(v)
+        return out
+
+    def concretise_key(self, sym):
+        name = sym.name
+        c = self.keys.canon(name)
+        if isinstance(c, int):
+            return c
+        for v in self.key_representatives(name):
+            if self.decide_eq(name, v):
+                self.stats['key_casts_concretised'] = self.stats.get('key_casts_concretised', 0) + 1
+                return v
+        self.stats['key_casts_cut'] = self.stats.get('key_casts_cut', 0) + 1
+        raise OutOfBound('a key symbol cast to an integer is none of its representative codes')
+
     def cast(self, a, src_ty, dst_ty, kind):
         if isinstance(a, EnumC):
             a = a.d
-            if isinstance(a, Sym):
+        if isinstance(a, Sym):
+            if self.keys is None:
                 raise Unsupported('numeric cast of a key symbol (use z3-valued keys in this harness)')
+            a = self.concretise_key(a)
         if kind == 'IntToInt':
             bits = INT_BITS.get(dst_ty)
             if bits is None:
